@@ -83,8 +83,8 @@ def unit_cases():
     scores = (1.0, 2.0, 2.0, 3.0)
     shapes = [(a, b) for a in range(0, 4) for b in range(0, 4)]
     for a, b in shapes:
-        for sa in set(itertools.product((1.0, 2.0, 3.0), repeat=a)):
-            for sb in set(itertools.product((1.0, 2.0, 3.0), repeat=b)):
+        for sa in set(itertools.product((-1.0, 0.0, 2.0, 3.0), repeat=a)):
+            for sb in set(itertools.product((-1.0, 0.0, 2.0, 3.0), repeat=b)):
                 for count in (0, 1, 2, 3, 5):
                     sel.append((count, (sa, sb)))
     return filt, sel
@@ -113,7 +113,7 @@ def bounded(repo, tier, seed):
                 "the two selection functions called directly on stub rows / peaks (only the attributes they read): "
                 "filterOutSubsequentAlignmentsForSingleQuery on every list of up to 4 rows over 3 query ids x 2 confidences and every 5-row single-query "
                 "list over 3 confidences (one input row per query, ascending ids, maximal confidence); selectPeaks on two correlations with 0-3 peaks each, "
-                "scores from {1,2,3} with ties, peaksCount 0/1/2/3/5 (exactly min(count, available) seeds, descending, none dropped scores higher); "
+                "scores from {-1,0,2,3} with ties (a score is height minus noise level: zero and negative values are ordinary), peaksCount 0/1/2/3/5 (exactly min(count, available) seeds, descending, none dropped scores higher); "
                 "non-trivial = something had to be dropped",
                 [dict(unit='filter', case=[list(x) for x in filt[300]]), dict(unit='select', case=[sel[200][0], [list(x) for x in sel[200][1]]])],
                 list(viol.values())[:4], exhaustive=True, bounds="lists of <= 5 rows; <= 6 peaks")
